@@ -66,6 +66,31 @@ def scalar(ip, st, v):
     return T("(S %d)" % tab[key], "Val")
 
 
+def key_as_val(ip, k):
+    """a string (Key term) as a context value"""
+    f = ip.reg.ufun("key_as_val", ["Key"], "Val")
+    return T("(%s %s)" % (f, k.s), "Val")
+
+
+def as_key(ip, st, v):
+    """a value used as a dictionary key: strings (Str / Key) as they are; a context value (Val) must be a string value --
+    an obligation -- and is then the string it embeds (val_as_key is the inverse of the embedding key_as_val)"""
+    if isinstance(v, Opaque) and v.sort == "Val":
+        reg = ip.reg
+        reg.ufun("key_as_val", ["Key"], "Val")
+        f = reg.ufun("val_as_key", ["Val"], "Key")
+        ax = T("(forall ((k Key)) (! (= (val_as_key (key_as_val k)) k) :pattern ((key_as_val k))))", "Bool")
+        if not any(a.s == ax.s for a in reg.axioms):
+            reg.axioms.append(ax)
+        k = T("(%s %s)" % (f, v.t.s), "Key")
+        isstr = EQ(v.t, key_as_val(ip, k))
+        if not ip.spec_mode and not ip.known(st, isstr):
+            ip.emit("safety", "dict-key-is-a-string", st, isstr)
+            st.assume(isstr)
+        return Opaque(k)
+    return v
+
+
 def need_dict(ip, st, t, what):
     """obligation / TypeError fork: t is a dictionary"""
     isd = T("(isD %s)" % t.s, "Bool")
@@ -225,7 +250,7 @@ def note_store(ip, st, base, v):
 def val_store(ip, s, base, idx, v):
     cur = ip.deref(s, base)
     need_dict(ip, s, cur, "item-store")
-    k = ip.key_term(idx)
+    k = ip.key_term(as_key(ip, s, idx))
     new = T("(D (store (dm %s) %s (some %s)))" % (cur.s, k.s, dterm(ip, s, v).s), "Val")
     note_store(ip, s, base, v)
     if not base.path and base.cid in s.notes.get("iterating", ()):
@@ -309,6 +334,14 @@ def val_method(ip, st, recv, name, pos, kws):
         else:
             ip.emit("safety", "pop-key-present", b, FALSE)
         return outs
+    if name == "update" and isinstance(recv, Ref) and isinstance(pos[0], Ref) \
+            and type(st.heap[pos[0].cid]).__name__ == "PyListCell" \
+            and all(isinstance(x, Tup) and len(x.items) == 2 for x in st.heap[pos[0].cid].items):
+        # d.update([(k1, v1), ...]) with a list display of pairs: successive item stores
+        need_dict(ip, st, t, "update")
+        for pair in st.heap[pos[0].cid].items:
+            val_store(ip, st, recv, pair.items[0], pair.items[1])
+        return [(st, NONE)]
     if name == "update" and isinstance(recv, Ref):
         need_dict(ip, st, t, "update")
         note_store(ip, st, recv, pos[0])
